@@ -132,6 +132,11 @@ fn all_due_answered(log: &[Ev]) -> bool {
     bestmoves >= due
 }
 
+/// Cost model switch (set per script by the caller): with sleeping timers one deviation buys every firing instant of a
+/// timer thread (see the comment in `run`); the exploration of a script then grows by one to two orders of magnitude,
+/// so it is used for the scripts that are about timers outliving their search, not for the whole command alphabet.
+pub static SLEEPY_TIMERS: std::sync::atomic::AtomicBool = std::sync::atomic::AtomicBool::new(false);
+
 pub fn run(script: &[Line], prefix: &[usize], horizon: usize) -> Exec {
     *lock() = Some(Sched { active: true, record_events: true, ..Default::default() });
     let main = std::thread::Builder::new()
@@ -151,6 +156,7 @@ pub fn run(script: &[Line], prefix: &[usize], horizon: usize) -> Exec {
     let mut seen_out = 0usize;
     let mut hard_deadlock = false;
     let mut unwinding = false;
+    let mut asleep: Vec<bool> = vec![];
     loop {
         let mut g = lock();
         // wait for quiescence: nobody holds the baton, no thread about to be born, everyone parked or finished
@@ -245,10 +251,20 @@ pub fn run(script: &[Line], prefix: &[usize], horizon: usize) -> Exec {
             s.input.clear();
             unwinding = true;
         }
+        // sleeping timers: a timer thread that has once been passed over in favour of the polling search thread (that
+        // choice cost one deviation) is "asleep" - in real time a timer IS asleep for its whole budget, so letting the
+        // search poll on while it sleeps is not a further deviation, and it may fire (run) at any later decision for free.
+        // One deviation therefore buys every firing instant, not only the earliest ones.
+        while asleep.len() < s.threads.len() {
+            asleep.push(false);
+        }
+        let sleepy_on = SLEEPY_TIMERS.load(std::sync::atomic::Ordering::Relaxed);
+        let sleepy: Vec<usize> = normals.iter().copied().filter(|&i| sleepy_on && i != GUI && asleep[i] && s.threads[i].name == "timer").collect();
+        let awake: Vec<usize> = normals.iter().copied().filter(|i| !sleepy.contains(i)).collect();
         // canonical order with deviation costs (poll = yield fairness model)
         let mut order: Vec<usize> = vec![];
         let mut costs: Vec<usize> = vec![];
-        let run_norm = last.map_or(false, |l| normals.contains(&l));
+        let run_norm = last.map_or(false, |l| awake.contains(&l));
         if run_norm {
             let l = last.unwrap();
             order.push(l);
@@ -256,14 +272,15 @@ pub fn run(script: &[Line], prefix: &[usize], horizon: usize) -> Exec {
             for &n in &normals {
                 if n != l {
                     order.push(n);
-                    costs.push(1);
+                    // a sleeping timer going off is an event of the outside world (time passing), not a preemption
+                    costs.push(if sleepy.contains(&n) { 0 } else { 1 });
                 }
             }
             for &q in &pollers {
                 order.push(q);
                 costs.push(1);
             }
-        } else if !normals.is_empty() {
+        } else if !awake.is_empty() {
             for &n in &normals {
                 order.push(n);
                 costs.push(0);
@@ -273,6 +290,7 @@ pub fn run(script: &[Line], prefix: &[usize], horizon: usize) -> Exec {
                 costs.push(1);
             }
         } else {
+            // only pollers (and sleeping timers) can run
             let l = last.filter(|l| pollers.contains(l));
             if let Some(l) = l {
                 order.push(l);
@@ -283,6 +301,10 @@ pub fn run(script: &[Line], prefix: &[usize], horizon: usize) -> Exec {
                     order.push(q);
                     costs.push(if l.is_some() { 1 } else { 0 });
                 }
+            }
+            for &t in &sleepy {
+                order.push(t);
+                costs.push(0);
             }
         }
         let idx = if decisions.len() < prefix.len() && !unwinding {
@@ -304,6 +326,13 @@ pub fn run(script: &[Line], prefix: &[usize], horizon: usize) -> Exec {
         let choice = order[idx];
         if !unwinding {
             decisions.push(Decision { enabled: order.clone(), chosen: idx, costs });
+        }
+        if choice != GUI && pollers.contains(&choice) {
+            for &n in &awake {
+                if n != GUI && s.threads[n].name == "timer" {
+                    asleep[n] = true;
+                }
+            }
         }
         last = Some(choice);
         if choice == GUI {
